@@ -13,7 +13,7 @@ def plan(prop, tier):
     q = tier == 'quick'
     n = 16 if q else 64
     per = {'C15': 130, 'C16': 1300, 'C17': 650, 'C18': 900}[prop] if q else {'C15': 3500, 'C16': 35000, 'C17': 17000, 'C18': 24000}[prop]
-    return ['asan', 'plain'], [('utils', SEED * 1000 + i, per) for i in range(n)]
+    return ['asan', 'plain', 'efence'], [('utils', SEED * 1000 + i, per) for i in range(n)]
 
 
 # ---------------------------------------------------------------------------------------------
